@@ -188,16 +188,20 @@ def Fmt.frac (F : Fmt) (b : Nat) : Bool × Nat × Int :=
 def Fmt.ofBin (F : Fmt) (neg : Bool) (m : Nat) (e : Int) : Nat :=
   F.withSign neg (if e ≥ 0 then roundPos F (m * 2 ^ e.toNat) 1 else roundPos F m (2 ^ (-e).toNat))
 
+/-- exact difference `a - b` of two finite values as `d · 2^e`: `(d, e)` -/
+def Fmt.subExact (F : Fmt) (a b : Nat) : Int × Int :=
+  let fa := F.frac a
+  let fb := F.frac b
+  let e := if fa.2.2 ≤ fb.2.2 then fa.2.2 else fb.2.2
+  let va : Int := (if fa.1 then -1 else 1) * ((fa.2.1 * 2 ^ (fa.2.2 - e).toNat : Nat) : Int)
+  let vb : Int := (if fb.1 then -1 else 1) * ((fb.2.1 * 2 ^ (fb.2.2 - e).toNat : Nat) : Int)
+  (va - vb, e)
+
 /-- IEEE `a - b` on finite values -/
 def Fmt.sub (F : Fmt) (a b : Nat) : Nat :=
-  let (na, ma, ea) := F.frac a
-  let (nb, mb, eb) := F.frac b
-  let e := if ea ≤ eb then ea else eb
-  let va : Int := (if na then -1 else 1) * ((ma * 2 ^ (ea - e).toNat : Nat) : Int)
-  let vb : Int := (if nb then -1 else 1) * ((mb * 2 ^ (eb - e).toNat : Nat) : Int)
-  let d := va - vb
-  if d = 0 then (if na && !nb && ma == 0 && mb == 0 then F.signBit else 0)
-  else F.ofBin (decide (d < 0)) d.natAbs e
+  if (F.subExact a b).1 = 0 then
+    (if F.isNeg a && !F.isNeg b && F.mag a == 0 && F.mag b == 0 then F.signBit else 0)
+  else F.ofBin (decide ((F.subExact a b).1 < 0)) (F.subExact a b).1.natAbs (F.subExact a b).2
 
 /-- IEEE `a / b` on finite values, `b ≠ 0` -/
 def Fmt.div (F : Fmt) (a b : Nat) : Nat :=
@@ -226,14 +230,17 @@ def f32ToF64 (b : Nat) : Nat :=
   else if !F32.isFinite b then F64.withSign (F32.isNeg b) F64.infBits
   else let (n, m, e) := F32.frac b; F64.ofBin n m e
 
+/-- integer part of the magnitude of a finite value -/
+def Fmt.truncMag (F : Fmt) (b : Nat) : Nat :=
+  if (F.frac b).2.2 ≥ 0 then (F.frac b).2.1 * 2 ^ (F.frac b).2.2.toNat
+  else (F.frac b).2.1 / 2 ^ (-(F.frac b).2.2).toNat
+
 /-- `x as i32` (truncation toward zero, saturating, NaN → 0) -/
 def Fmt.toI32 (F : Fmt) (b : Nat) : Int :=
   if F.isNaN b then 0
   else if !F.isFinite b then (if F.isNeg b then -2147483648 else 2147483647)
   else
-    let (n, m, e) := F.frac b
-    let t : Nat := if e ≥ 0 then m * 2 ^ e.toNat else m / 2 ^ (-e).toNat
-    let v : Int := if n then -(t : Int) else (t : Int)
+    let v : Int := if F.isNeg b then -(F.truncMag b : Int) else (F.truncMag b : Int)
     if v < -2147483648 then -2147483648 else if v > 2147483647 then 2147483647 else v
 
 /-! ## the float grammar of `dec2flt` -/
